@@ -95,7 +95,8 @@ pub fn rand_http(rng: &mut Rng, app_ids: &[String], k: &Knobs, cup: bool) -> Val
         0 => json!({"err": *rng.pick(&["user", "transport", "timeout"])}),
         1 => json!({"err": "transport"}),
         _ => {
-            let status = match rng.below(10) { 0 => 500, 1 => 404, 2 => 302, 3 => 204, 4 => 299, _ => 200 };
+            let status = match rng.below(11) { 0 => 500, 1 => 404, 2 => 302, 3 => 204, 4 => 299,
+                5 => *rng.pick(&[100u64, 101, 199, 201, 300, 304, 399, 400, 418, 429, 451, 499, 501, 503, 599, 600, 700, 999]), _ => 200 };
             let ra: Vec<Value> = if rng.below(100) < k.retry_after_pct {
                 let mut v = vec![hx(&rand_retry_after(rng))];
                 if rng.chance(1, 5) { v.push(hx(&rand_retry_after(rng))); }
